@@ -208,6 +208,19 @@ func newFixture() *fixture {
 	if err != nil {
 		fw.Fatal("c05 ops: %v", err)
 	}
+	// Some thread of the process has frozen a closure before the enclosing function
+	// assigned the variable it captures (a host built-in that freezes its argument,
+	// e.g. before publishing it): whatever the implementation keeps to make the later
+	// Freeze reach that value is now in the state "after such an event", for every
+	// value frozen before it (all of m and o).
+	earlyPre := predeclared()
+	earlyPre["hostfreeze"] = starlark.NewBuiltin("hostfreeze", func(_ *starlark.Thread, _ *starlark.Builtin, args starlark.Tuple, _ []starlark.Tuple) (starlark.Value, error) {
+		args[0].Freeze()
+		return starlark.None, nil
+	})
+	if _, err := starlark.ExecFileOptions(fileOpts, th, "early.star", "def mk():\n    def f():\n        return x\n    hostfreeze(f)\n    x = [1]\n    return f\nq = mk()\n", earlyPre); err != nil {
+		fw.Fatal("c05 early-freeze program: %v", err)
+	}
 	f := &fixture{module: m, ops: o}
 	for n := range m {
 		if n != "make" && n != "K" {
